@@ -47,7 +47,7 @@ ObsContent(o, Cexp) ==
    member |-> [g \in GrpU |-> SeqSet(o.member[g]) \cap AllIds],
    ann |-> [x \in AllIds |-> o.ann[x]], note |-> [x \in AllIds |-> o.note[x]],
    attr |-> [x \in AllIds |-> [name |-> o.attr[x].name, formula |-> o.attr[x].formula, charge |-> o.attr[x].charge,
-                               subsys |-> o.attr[x].subsys]],
+                               subsys |-> o.attr[x].subsys, comp |-> o.attr[x].comp]],
    xcols |-> SeqSet(o.lp.xcols), xrows |-> SeqSet(o.lp.xrows), solver |-> o.solver, tol |-> o.tol]
 RulesInSync(o, C) == o.present => \A r \in RxU : (r \in SeqSet(o.rxns) => RuleMatches(C.rule[r], o, r))
 
@@ -76,6 +76,7 @@ SlotDiff(o, C, depth, helper) ==
      \cup (IF \E x \in AllIds : C.attr[x].formula # Wild /\ o.attr[x].formula # C.attr[x].formula THEN {"formula"} ELSE {})
      \cup (IF \E x \in AllIds : C.attr[x].charge # Wild /\ o.attr[x].charge # C.attr[x].charge THEN {"charge"} ELSE {})
      \cup (IF \E x \in AllIds : C.attr[x].subsys # Wild /\ o.attr[x].subsys # C.attr[x].subsys THEN {"subsys"} ELSE {})
+     \cup (IF \E x \in AllIds : C.attr[x].comp # Wild /\ o.attr[x].comp # C.attr[x].comp THEN {"comp"} ELSE {})
      \cup (IF helper = 0 /\ SeqSet(o.lp.xcols) # C.xcols THEN {"xcols"} ELSE {})
      \cup (IF helper = 0 /\ SeqSet(o.lp.xrows) # C.xrows THEN {"xrows"} ELSE {})
      \cup (IF o.solver # C.solver THEN {"solver"} ELSE {})
